@@ -27,6 +27,18 @@ carries which material tier (isotropic / diagonal / full tensor / conductive / m
 kinds (box / full-shape mask / cylinder-like broadcast mask), and the placement-order pattern
 (all 13 weak orderings of three objects incl. ties).  Material VALUES are concrete (the tier
 selection of the code is a float predicate, math.isclose) and chosen distinct per object/component.
+
+Two obligation families:
+  scene tasks  <materials>/<kinds>/<grid>/..: the REAL _init_arrays from the zero fill on
+               volume + three objects, all 13 order patterns (base case + the sort).
+  frame tasks  frame/<materials>/p<ab>/<kinds>/..: the induction step for ARBITRARY object counts:
+               the allocation stub hands out arbitrary prior arrays (fresh symbolic), the volume is a
+               stand-in that is not painted, and two consecutive iterations of the real loop body
+               are shown to give  new[x] = value(top covering object) if covered else prior[x].
+               Since every iteration has this "covered ? value : previous" form for an arbitrary
+               previous state, the last writer in the (stable) sorted order wins for any number
+               of objects.  (Masked objects on a full-tensor prior are not attempted: the update
+               passes through inv(inv(M)) of a symbolic 3x3 M.)
 """
 
 from __future__ import annotations
@@ -39,7 +51,7 @@ import z3
 from vc import array as A
 from vc import scene
 from vc.array import SymArray
-from vc.core import SymBool, SymNum, ctx, zbool
+from vc.core import SymBool, ctx, zbool
 from vc.harness import Task
 from vc.obl import sym_int, sym_real
 
@@ -83,6 +95,7 @@ INLINED = [
 STUBS = [
     "create_named_sharded_matrix(shape, value, ..) -> array filled with value; sharding_preserving_set/add -> .at[idx].set/add (device placement / sharding not modelled)",
     "_warn_if_simulation_volume_too_large (a warning only)",
+    "frame tasks: create_named_sharded_matrix -> arbitrary (fresh symbolic) prior array; the volume is a stand-in object with only grid_shape (not a static material object)",
     "get_voxel_mask_for_shape of Sphere / Cylinder: arbitrary boolean array of the grid shape (Sphere) or with a unit extrusion axis (Cylinder) -- the mask contract is property C43",
     "RectilinearGrid stand-in (SymGrid): cfl_time_step of a stretched grid is an arbitrary dt > 0",
 ]
@@ -95,9 +108,9 @@ ASSUMPTIONS = [
     "masked objects carry a three-entry material dictionary (painted material, vacuum, another object's material); the painted material is the named one",
     "non-uniform grid: 'grid-scaled' is read as sigma * c*dt/courant_number (the reference spacing the code documents); uniform grid: sigma * spacing",
 ]
-MIN_OBLIGATIONS = {"quick": 800, "thorough": 4000}
+MIN_OBLIGATIONS = {"quick": 6000, "thorough": 30000}
 LEVEL_TEXT = "Deductive proof for all volume shapes, object boxes (every overlap relation), voxel masks, cells and grid spacings of the painter's rule, tier widths and the scalar-permeability rule on the real _init_arrays; the finite classes (material tier assignment, object kinds, the 13 placement-order patterns of three objects incl. ties) are enumerated with concrete exactly-representable material values"
-LEVEL_NOTE = "material values concrete (tier selection is a float predicate); three objects + volume; sharding helpers stubbed by plain array fills/updates"
+LEVEL_NOTE = "material values concrete (tier selection is a float predicate); scenes of three objects + volume, arbitrary object counts via the per-iteration frame lemma on an arbitrary prior state (meta-step: stable sort + last writer wins); sharding helpers stubbed by plain array fills/updates"
 
 # ---------------------------------------------------------------------------------------
 # material palette (dyadic values: float arithmetic on them is exact)
@@ -637,7 +650,9 @@ def tasks(tier, seed):
 
 def replay(key, obligation, witness):
     """real _init_arrays (real JAX, real sharding helpers) on the witness boxes/masks, compared at
-    every cell with a direct numpy painter (highest (order, list index) covering object wins)."""
+    every cell with a direct numpy painter (highest (order, list index) covering object wins).
+    Frame-lemma keys: the real allocation helper is wrapped so that the arrays start from a random
+    non-zero prior state instead of zeros (volume stand-in, nothing painted before)."""
     import re
 
     import jax.numpy as jnp
@@ -652,20 +667,31 @@ def replay(key, obligation, witness):
     from vc.harness import witness_arrays_to_numpy
 
     sc = (witness or {}).get("scalars", {})
-    scn, kinds, grid_kind, salt, _ = key.split("/")
+    parts = key.split("/")
+    frame = parts[0] == "frame"
+    if frame:
+        _, scn, pair, kinds, salt = parts
+        pair = (int(pair[1]), int(pair[2]))
+        m = re.match(r"frame(\d)(\d)/", obligation)
+    else:
+        scn, kinds, _grid_kind, salt, _ = parts
+        m = re.match(r"ord(\d)(\d)(\d)/", obligation)
     salt = int(salt[1:])
-    m = re.match(r"ord(\d)(\d)(\d)/", obligation)
     if not m:
         return False, "obligation does not name an order pattern"
     order = tuple(int(x) for x in m.groups())
+    K = len(order)
+    tag = "".join(map(str, order))
     try:
         N = [max(1, int(sc[f"N{a}"])) for a in "xyz"]
-        boxes = [tuple((int(sc[f"o{k}lo{a}"]), int(sc[f"o{k}hi{a}"])) for a in range(3)) for k in range(3)]
+        boxes = [tuple((int(sc[f"o{k}lo{a}"]), int(sc[f"o{k}hi{a}"])) for a in range(3)) for k in range(K)]
     except Exception as e:  # noqa: BLE001
         return False, f"witness incomplete: {e}"
     for b in boxes:
         if any(not (0 <= lo < hi <= n) for (lo, hi), n in zip(b, N)):
             return False, f"witness boxes {boxes} not well-formed for volume {N}"
+    if N[0] * N[1] * N[2] > 2_000_000:
+        return False, f"witness volume {N} too large to replay"
     if N == [1, 1, 1]:
         # the real allocation helper create_named_sharded_matrix raises StopIteration on an all-ones
         # shape (single-cell volume with a 1-component array); replay on a 2x1x1 volume instead
@@ -677,10 +703,16 @@ def replay(key, obligation, witness):
     grid = RectilinearGrid(x_edges=jnp.asarray(edges[0]), y_edges=jnp.asarray(edges[1]), z_edges=jnp.asarray(edges[2]))
     cfg = SimulationConfig(time=1e-15, grid=grid, backend="cpu", dtype=jnp.float64)
     mats = _materials(scn, salt)
+    if frame:
+        mats = [mats[0], mats[pair[0]], mats[pair[1]], mats[pair[0]]]
     rng = np.random.default_rng(0)
-    objs = [scene._place(SimulationVolume(name="rvol", material=mats[0], partial_grid_shape=(None, None, None)), tuple((0, n) for n in N), cfg)]
-    cover = [np.ones(N, dtype=bool)]
-    for k in range(3):
+    if frame:
+        objs = [scene.Volume(tuple(N))]
+        cover = [np.ones(N, dtype=bool)]
+    else:
+        objs = [scene._place(SimulationVolume(name="rvol", material=mats[0], partial_grid_shape=(None, None, None)), tuple((0, n) for n in N), cfg)]
+        cover = [np.ones(N, dtype=bool)]
+    for k in range(K):
         gshape = tuple(hi - lo for lo, hi in boxes[k])
         sl = tuple(slice(lo, hi) for lo, hi in boxes[k])
         cv = np.zeros(N, dtype=bool)
@@ -690,7 +722,7 @@ def replay(key, obligation, witness):
         else:
             md = _material_dict(k, mats)
             mshape = gshape if kinds[k] == "m" else (gshape[0], 1, gshape[2])
-            mk = wa.get(f"mask{k}_{''.join(map(str, order))}")
+            mk = wa.get(f"mask{k}_{tag}")
             if mk is None or mk.shape != mshape:
                 mk = rng.random(mshape) < 0.6
             mk = np.asarray(mk, dtype=bool)
@@ -705,14 +737,37 @@ def replay(key, obligation, witness):
             cv[sl] = np.broadcast_to(mk, gshape)
         objs.append(scene._place(o, boxes[k], cfg))
         cover.append(cv)
-    arrays, _, _ = I._init_arrays(ObjectContainer(object_list=objs, volume_idx=0), cfg)
-    prio = [(-1000, 0)] + [(order[k], k + 1) for k in range(3)]
+    made = []
+    if frame:
+        real_create = I.create_named_sharded_matrix
+
+        def create(shape, value, sharding_axis, dtype, backend):
+            base = real_create(shape, value=1.0, sharding_axis=sharding_axis, dtype=dtype, backend=backend)
+            pr = rng.uniform(0.5, 1.5, size=tuple(shape))
+            if shape[0] == 9 and len(shape) == 4:
+                pr = pr * 0.1
+                pr[0] += 1.0
+                pr[4] += 1.0
+                pr[8] += 1.0
+            made.append(pr)
+            return base * jnp.asarray(pr, dtype=base.dtype)
+
+        I.create_named_sharded_matrix = create
+        try:
+            arrays, _, _ = I._init_arrays(ObjectContainer(object_list=objs, volume_idx=0), cfg)
+        finally:
+            I.create_named_sharded_matrix = real_create
+    else:
+        arrays, _, _ = I._init_arrays(ObjectContainer(object_list=objs, volume_idx=0), cfg)
+    prio = [(-(10**6) if frame else -1000, 0)] + [(order[k], k + 1) for k in range(K)]
     top = np.zeros(N, dtype=int)
-    for k in sorted(range(4), key=lambda k: prio[k]):
+    for k in sorted(range(K + 1), key=lambda k: prio[k]):
         top = np.where(cover[k], k, top)
     scale = float(fdtdx.constants.c * cfg.time_step_duration / cfg.courant_number)
     problems = []
-    allm = _all_materials(objs)
+    real_objs = objs[1:] if frame else objs
+    allm = _all_materials(real_objs)
+    prior_it = iter(made[2:])
     for attr, prop, mode in (("inv_permittivities", "permittivity", "inverse"), ("inv_permeabilities", "permeability", "inverse"), ("electric_conductivity", "electric_conductivity", "scaled"), ("magnetic_conductivity", "magnetic_conductivity", "scaled")):
         arr = getattr(arrays, attr)
         need = max(_tier_needed(getattr(mm, prop)) for mm in allm)
@@ -726,11 +781,14 @@ def replay(key, obligation, witness):
                 problems.append(f"{attr}: missing although a material needs it")
             continue
         arr = np.asarray(arr)
+        prior = next(prior_it, None) if frame else None
         if arr.shape != (need, *N):
             problems.append(f"{attr}: shape {arr.shape}, expected {(need, *N)}")
             continue
-        exp = np.zeros((need, *N))
+        exp = np.array(prior, dtype=float) if (frame and prior is not None and prior.shape == arr.shape) else np.zeros((need, *N))
         for k, o in enumerate(objs):
+            if frame and k == 0:
+                continue
             M = np.array(getattr(_painted(o), prop), dtype=float).reshape(3, 3)
             full = np.linalg.inv(M) if mode == "inverse" else M * scale
             comp = {1: [full[0, 0]], 3: [full[0, 0], full[1, 1], full[2, 2]], 9: list(full.ravel())}[need]
@@ -738,7 +796,7 @@ def replay(key, obligation, witness):
                 exp[ci][top == k] = v
         bad = np.argwhere(~np.isclose(arr, exp, rtol=1e-9, atol=1e-12))
         if len(bad):
-            b = tuple(bad[0])
-            problems.append(f"{attr}: {len(bad)} entries differ, first at component {b[0]} cell {b[1:]} (top object {int(top[b[1:]])}): stored {arr[b]:.6g}, painter's rule {exp[b]:.6g}")
+            b = tuple(int(x) for x in bad[0])
+            problems.append(f"{attr}: {len(bad)} entries differ, first at component {b[0]} cell {b[1:]} (top object {int(top[b[1:]])}{', 0 = prior state' if frame else ''}): stored {arr[b]:.6g}, painter's rule {exp[b]:.6g}")
     detail = f"{key} order {order}: volume {N}, boxes {boxes}: " + ("; ".join(problems) if problems else "real _init_arrays agrees with the painter's rule at every cell")
     return bool(problems), detail
